@@ -44,9 +44,14 @@ CHECKS = {
     },
     "C05": {
         "level": "exploration",
-        "quick": {"shards": 16, "rounds": 1, "checks": 100, "timeout": 900},
-        "thorough": {"shards": 16, "rounds": 4, "checks": 500, "timeout": 3000},
-        "assumptions": [],
+        "quick": {"shards": 16, "rounds": 1, "checks": 350, "timeout": 900},
+        "thorough": {"shards": 16, "rounds": 8, "checks": 500, "timeout": 3000},
+        "assumptions": [
+            "the build phase is single-client with the background flush quiesced between steps; the concurrent phase samples schedules",
+            "iterators are read the way KevoService.Scan reads them (SeekToFirst/Seek, Valid, IsTombstone skip, Next)",
+            "non-nil empty bounds are not generated (the service cannot produce them; no document says what they mean)",
+            "'retire' uses the repository's own WAL retention code (ManageRetention) after everything was flushed",
+        ],
     },
     "C06": {
         "level": "exploration",
@@ -85,7 +90,7 @@ CHECKS = {
     "C11": {
         "level": "exploration",
         "quick": {"shards": 16, "rounds": 1, "checks": 600, "timeout": 900},
-        "thorough": {"shards": 16, "rounds": 6, "checks": 1000, "timeout": 3000},
+        "thorough": {"shards": 16, "rounds": 5, "checks": 1000, "timeout": 3000},
         "assumptions": [
             "keys are non-empty and at most 65535 bytes (16-bit key length of the block format); values up to 1.5 MiB",
             "corruption = exactly one byte of the finished file XORed with a non-zero mask; a non-terminating read is counted, not judged",
